@@ -68,6 +68,8 @@ def build_log(task, pieces, trailer_free, eol):
     """pieces: list of list of SymStr (name, args...) per step; returns (SymStr log, expected list of SymStr)"""
     log = SymStr.of(HEADERS[task["header"]] + MARKER)
     expected = []
+    if not pieces and task.get("zero_step_note"):
+        log = log + "\n"
     for i, words in enumerate(pieces):
         line = SymStr.of(step_prefix(i, task["numbers"][i], task["indent"]))
         body = words[0]
@@ -424,6 +426,12 @@ def tasks_for(tier, seed):
                                   "numbers": rng.choice(numbers_sets)[: len(ws)], "indent": rng.choice([1, 3, 4, 7]),
                                   "header": rng.choice([0, 1]), "trailer": rng.choice([0, 1]), "crlf": crlf,
                                   "blank_after_plan": True, "free_line": True})
+    # a plan of zero steps: the marker is there, the goal already holds
+    for entry in ("content", "status", "parse_plan"):
+        for tl in (0, 2):
+            for header in (0, 1):
+                tasks.append({"kind": "ff", "entry": entry, "word_lens": [], "trailer_len": tl, "numbers": [], "indent": 4,
+                              "header": header, "trailer": 0, "crlf": False, "blank_after_plan": True, "free_line": tl > 0})
     # no blank line between the plan and the free line (Metric-FF always prints one; other front ends do not)
     for ws in word_shapes_1[:3]:
         for tl in tls[:4]:
